@@ -8,7 +8,7 @@ META = {
     "design_ref": "5/C25",
     "coq_targets": ["Props/Properties_C25.vo", "Place/PutCheck.vo"],
     "coq_files": ["Place/Put.v", "Place/PutProofs.v", "Place/PutCheck.v", "Props/Properties_C25.v"],
-    "theorems": ["C25_rep", "C25_rep_all_rules", "C25_initial", "C25_ec", "C25_ec_distinct_nodes"],
+    "theorems": ["C25_rep", "C25_rep_all_rules", "C25_initial", "C25_ec", "C25_ec_distinct_nodes", "C25_entry"],
     "technique": "Coq proof (loop invariants over the node list / rule list; for EC an invariant preserved by every atomic step, hence for "
                  "every interleaving) about a Gallina transcription of saveObject/handleREPRule/applyECRule + differential check against the "
                  "real distributedTarget over a fake transport",
@@ -131,6 +131,9 @@ def find_schedule(total, n, data, ackidx, log, lazy):
         reach(p, i, 0)
         if not lazy:
             flush(p)
+    for (p, i) in log:
+        if sim.hold[p] == i:
+            sim.step(p)
     for p in range(total):
         guard = 0
         while not sim.finished(p) and guard < 4 * n + 8:
@@ -158,7 +161,7 @@ def ec_schedules(c):
             for lazy in (False, True):
                 sched, got = find_schedule(d + p, len(nodes), d, lambda i: nodes[i] in ack, log, lazy)
                 best = best or sched
-                if got == log:
+                if all([x for x in got if x[0] == q] == [x for x in log if x[0] == q] for q in range(d + p)):
                     best = sched
                     break
         scheds.append(best)
@@ -172,9 +175,10 @@ def coq_case(c):
         ini = "(Some (mkInit %s %d %s))" % (vlib.coq_list(c["ini"]["limits"]), c["ini"]["max"], vlib.coq_bool(c["ini"]["prefer"]))
     scheds = ec_schedules(c) if c["ecr"] else []
     sends = vlib.coq_list(o["sends"], lambda s: "(%d, %d, %d)" % (s["rule"] + 1 if s["rule"] >= 0 else 0, max(s["part"], 0), s["node"]))
-    return "(mkPut %d %s %s %s %s %s %s %d %s %s)" % (
+    return "(mkPut %d %s %s %s %s %s %s %s %d %s %s)" % (
         c["local"], vlib.coq_list(c["lists"], vlib.coq_list), vlib.coq_list(c["rep"]),
-        vlib.coq_list(c["ecr"], lambda r: "(%d, %d)" % (r[0], r[1])), vlib.coq_list(c["ack"]), ini,
+        vlib.coq_list(c["ecr"], lambda r: "(%d, %d)" % (r[0], r[1])), vlib.coq_list(c["ack"]),
+        vlib.coq_bool(c["session"]), ini,
         vlib.coq_list(scheds, vlib.coq_list), o["status"], sends, vlib.coq_bool(o["panic"]))
 
 
@@ -216,7 +220,7 @@ def minimise(ctx, binp, c, kind):
         r = evaluate(ctx, out)
         return r is not None and bool(r[0] if kind == "model" else r[1])
     cur = json.loads(json.dumps(strip(c)))
-    budget = 10
+    budget = 5
     changed = True
     while changed and budget > 0:
         changed = False
@@ -272,7 +276,7 @@ def run(ctx):
             break
         kind = "ref" if i in bad_ref else "model"
         c = cases[i]
-        small = minimise(ctx, binp, c, kind) if reported < 2 else strip(c)
+        small = minimise(ctx, binp, c, kind) if reported < 1 else strip(c)
         out = rerun(ctx, binp, [small])
         ctx.violation({"case": small, "impl_observed": out[0]["obs"] if out else c["obs"],
                        "disagrees_with": "reference: PUT reported success without the policy's acknowledged copies / parts not on distinct nodes of the rule's list"
